@@ -163,6 +163,41 @@ def run(ctx):
                 if bad:
                     ctx.violation('release %d %s: %s' % (v, name, bad), {'release': v, 'packet': name, 'values': repr(vals)[:200]},
                                   key={'release': v, 'packet': name})
+    # a packet decoded from published bytes and written again must give the same bytes (what the keep-alive
+    # echo relies on), in particular for 5-byte VarInts with the top bit set ("negative" ids)
+    for v in rp.RELEASES:
+        if v in missing_rel:
+            continue
+        cx = ConnectionContext(protocol_version=v)
+        for name in ('keep_alive_cb', 'keep_alive_sb', 'teleport_confirm', 'set_compression'):
+            lay = rp.layout(name, v)
+            if lay is None:
+                continue
+            tab, clsname = rp.PYCRAFT_NAME[name]
+            cls = next((c for c in tabs[tab].get_packets(cx) if c.__name__ == clsname), None)
+            if cls is None:
+                continue
+            t = lay[0][1]
+            encs = [bytes.fromhex(h) for h in (['ffffffff0f', '8080808008', 'ffffffff07', '00', '7f'] if t == 'varint'
+                                                else ['ffffffffffffffff', '8000000000000000', '0000000000000001'])]
+            for payload in encs:
+                q = cls(cx)
+                rb = PacketBuffer()
+                rb.send(payload)
+                rb.reset_cursor()
+                ctx.case(('echo', v, name, payload))
+                try:
+                    q.read(rb)
+                    wb = PacketBuffer()
+                    q.write_fields(wb)
+                    out = wb.get_writable()
+                except Exception as e:
+                    out = 'raised %r' % (e,)
+                if out != payload:
+                    ctx.violation('release %d %s: published bytes %s decoded and written again give %s'
+                                  % (v, name, payload.hex(), out.hex() if isinstance(out, bytes) else out),
+                                  {'release': v, 'packet': name, 'bytes': payload.hex()},
+                                  key={'release': v, 'packet': name, 'echo': payload.hex()})
     ctx.extra['releases'] = len(rp.RELEASES)
     ctx.extra['core_packets'] = len(rp.CORE)
 
